@@ -7,7 +7,7 @@ from progprop import replay
 def run(tier):
     import os
     seed = int(os.environ.get('VERIF_SEED', '0') or 0)
-    return progprop.run('C05', tier, tmpl.search_dfs() + tmpl.random_dfs_programs(seed, 16 if tier == 'quick' else 400), 'c05',
+    return progprop.run('C05', tier, tmpl.search_dfs() + tmpl.random_dfs_programs(seed, 16 if tier == 'quick' else 100), 'c05',
                         'Programs wrapped in dfs { } are executed symbolically from MIR (real macro expansion, real engine); on every feasible '
                         'path the SEQUENCE of answers must equal the depth-first, left-to-right answer sequence of the reference interpreter. '
-                        'Generated dfs programs (random_dfs_programs: ==, !=, member, append, cond, bracketed conjunctions; 16 quick / 400 thorough, seeded by VERIF_SEED) are decided the same way.')
+                        'Generated dfs programs (random_dfs_programs: ==, !=, member, append, cond, bracketed conjunctions; 16 quick / 100 thorough, seeded by VERIF_SEED) are decided the same way.')
